@@ -30,6 +30,7 @@ type RebornRec struct {
 	Collectors int      `json:"collectors"`
 	LastEnds   string   `json:"last_life_ends_by"`
 	Delivered  []int    `json:"tasks_delivered_per_life"`
+	Reported   int      `json:"reports_that_reached_the_upstream"`
 	Stops      int64    `json:"after_stopped_calls"`
 	Kinds      []string `json:"kinds,omitempty"`
 	Notes      []string `json:"notes,omitempty"`
@@ -68,6 +69,18 @@ func (silentSource) Read(ctx context.Context) (protocol.Message, error) {
 	return nil, ctx.Err()
 }
 
+// scriptedSource is a collector's report source the scenario feeds.
+type scriptedSource struct{ ch chan protocol.Message }
+
+func (s *scriptedSource) Read(ctx context.Context) (protocol.Message, error) {
+	select {
+	case m := <-s.ch:
+		return m, nil
+	case <-ctx.Done():
+		return nil, ctx.Err()
+	}
+}
+
 // waitFor polls cond until it holds or the limit passes; late is the worst delay a 50 ms sleep suffered meanwhile.
 func waitFor(limit time.Duration, cond func() bool) (ok bool, late time.Duration) {
 	deadline := time.Now().Add(limit)
@@ -96,6 +109,7 @@ func rebornScenario(rng *vh.Rng, idx int, watchdog time.Duration) *RebornRec {
 	var rs *fractal.RemoteSuperior
 	var rsCancel context.CancelFunc
 	var conns []context.CancelFunc
+	reporter := &scriptedSource{ch: make(chan protocol.Message, 4)}
 	defer func() {
 		done := make(chan struct{})
 		go func() {
@@ -141,7 +155,11 @@ func rebornScenario(rng *vh.Rng, idx int, watchdog time.Duration) *RebornRec {
 			rs, rsCancel = fractal.NewRemoteSuperior(bg, reader, writer, afterStopped)
 			for i := range writers {
 				writers[i] = &recordingRequestWriter{seen: map[uuid.UUID]int{}}
-				_, c := fractal.NewRemoteCollector(bg, rs, writers[i], silentSource{}, nil)
+				var src fractal.MessageReader = silentSource{}
+				if i == 0 {
+					src = reporter
+				}
+				_, c := fractal.NewRemoteCollector(bg, rs, writers[i], src, nil)
 				colCancels = append(colCancels, c)
 			}
 		} else {
@@ -180,6 +198,42 @@ func rebornScenario(rng *vh.Rng, idx int, watchdog time.Duration) *RebornRec {
 			rec.Blocked = blockedNow()
 			return rec
 		}
+		// the first collector answers: its report must come out of the connection of THIS life
+		reports := make(chan uuid.UUID, 8)
+		rctx, rcancel := context.WithCancel(bg)
+		go func(rr *fractal.RemoteReportReader) {
+			for {
+				m, err := rr.Read(rctx)
+				if err != nil {
+					return
+				}
+				if q, ok := m.(*protocol.ReportQualities); ok {
+					reports <- q.TaskID
+				}
+			}
+		}(fractal.NewRemoteReportReader(rctx, upConn))
+		reporter.ch <- &protocol.ReportQualities{TaskID: tid}
+		reported := false
+		ok, late = waitFor(watchdog, func() bool {
+			select {
+			case id := <-reports:
+				reported = reported || id == tid
+			default:
+			}
+			return reported
+		})
+		rcancel()
+		if !ok {
+			if late > 800*time.Millisecond {
+				rec.NotJudged = fmt.Sprintf("life %d: goroutines were woken up to %s late while waiting for the report", life, late)
+				return rec
+			}
+			rec.Kinds = append(rec.Kinds, "report-not-delivered-after-reconnection")
+			rec.Notes = append(rec.Notes, fmt.Sprintf("life %d of %d: a collector's quality report for the task of this life did not reach the upstream over the connection of this life within %s", life+1, rec.Lives, watchdog))
+			rec.Blocked = blockedNow()
+			return rec
+		}
+		rec.Reported++
 		last := life == rec.Lives-1
 		if last && rec.LastEnds == "stop" {
 			returned := make(chan struct{})
